@@ -47,7 +47,7 @@ class SimSelector(selectors.BaseSelector):
         out = []
         K = shim.K
         for fd, key in self._keys.items():
-            if fd < FD_BASE:
+            if fd < FD_BASE and fd not in K.low:
                 continue            # asyncio's self-pipe: nothing ever arrives
             of = K.fds.get(fd)
             ev = 0
